@@ -31,7 +31,7 @@ CMP = ("x", "fun", "jac", "nfev", "njev", "nit", "message", "sk", "yk")
 
 def floors(tier):
     return {"identity_pairs_compared": 60, "switch_runs": 250, "post_switch_states_checked": 800, "switches_dropping_pairs": 40,
-            "switches_newest_pair_rejected": 5, "restart_equivalence_checked": 250, "initial_call_rewrites_on_restart": 100, "switch_runs_with_new_objective_undefined_at_an_old_iterate": 40, "__nontrivial__": 40}
+            "switches_newest_pair_rejected": 5, "restart_equivalence_checked": 250, "initial_call_rewrites_on_restart": 100, "switch_runs_with_new_objective_undefined_at_an_old_iterate": 40, "switch_runs_with_inert_differencing_step": 100, "__nontrivial__": 40}
 
 
 def cases(tier, seed):
@@ -54,7 +54,7 @@ def cases(tier, seed):
                "vseed": int(rng.integers(0, 2**31 - 1)), "strength": float(rng.uniform(0.3, 3.0)),
                "eps_SY": float(gen.pick(rng, [2.2e-16, 2.2e-16, 1e-3, 1e-2, 0.1])),
                "rewrite": gen.pick(rng, ["new_deque", "new_deque", "same_deque", "same_arrays"]),
-               "undefined_at": int(rng.integers(0, 8)) if i % 6 == 5 else None}
+               "undefined_at": int(rng.integers(0, 8)) if i % 6 == 5 else None, "fd_step": float(gen.pick(rng, [1e-3, 1e-2, 0.1])) if i % 3 == 1 else None}
     nr = 200 if tier == "quick" else 8000
     for i in range(nr):
         ps = gen.rand_spec(rng, ("qp", "qp_quartic"), nmax=8, nmin=2, boxes=("none", "mixed", "boxed", "lower"),
@@ -62,7 +62,7 @@ def cases(tier, seed):
         yield {"kind": "switch_on_restart", "problem": ps, "maxcor": int(rng.integers(1, 7)), "stop_at": int(rng.integers(1, 8)),
                "variant": gen.pick(rng, ["rescale", "reg", "indefinite", "indefinite"]), "vseed": int(rng.integers(0, 2**31 - 1)),
                "strength": float(rng.uniform(0.3, 3.0)), "eps_SY": float(gen.pick(rng, [2.2e-16, 2.2e-16, 1e-3, 1e-2, 0.1])),
-               "rewrite": gen.pick(rng, ["new_deque", "new_deque", "same_deque", "same_arrays"])}
+               "rewrite": gen.pick(rng, ["new_deque", "new_deque", "same_deque", "same_arrays"]), "fd_step": float(gen.pick(rng, [1e-3, 1e-2, 0.1])) if i % 3 == 1 else None}
 
 
 # ---------------------------------------------------------------------------
@@ -222,6 +222,9 @@ def run_switch(spec, out):
 
     cfg = dict(jac="callable", maxcor=spec["maxcor"], maxls=20, maxiter=spec["maxiter"], ftol=0.0, gtol=1e-10, cb="never", maxfun=10000,
                eps_SY=eps_sy)
+    if spec.get("fd_step") is not None:
+        cfg["eps"] = spec["fd_step"]  # differencing step: inert with a callable gradient, passed at a non-default value
+        out.count("switch_runs_with_inert_differencing_step")
     tr = probes.run_min(S, cfg, hooks={"ufd": ufd})
     name = f"switch {P0.spec['family']} n={P0.n} maxcor={spec['maxcor']} eps_SY={eps_sy:g} {desc} at call {spec['switch_at']}"
     tags = dict(kind="switch", variant=spec["variant"])
@@ -351,6 +354,9 @@ def run_switch_on_restart(spec, out):
     fB, gB, desc = make_fB(P0, spec)
     eps_sy = float(spec.get("eps_SY", 2.2e-16))
     cfg = dict(jac="callable", maxcor=spec["maxcor"], maxls=20, ftol=0.0, gtol=1e-10, maxfun=10000, eps_SY=eps_sy)
+    if spec.get("fd_step") is not None:
+        cfg["eps"] = spec["fd_step"]
+        out.count("switch_runs_with_inert_differencing_step")
     first = probes.run_min(P0, dict(cfg, maxiter=spec["stop_at"]))
     name = f"switch on restart {P0.spec['family']} n={P0.n} maxcor={spec['maxcor']} eps_SY={eps_sy:g} {desc} after iteration {spec['stop_at']} ({spec.get('rewrite', 'new_deque')})"
     tags = dict(kind="switch_on_restart", variant=spec["variant"])
